@@ -1,19 +1,19 @@
 CONSTANTS
   Honest <- HonestDef
-  Ranks <- RanksOne
-  EphKinds <- EphPeer
+  Ranks <- RanksM
+  EphKinds <- EphAll
   MEphs <- MEphsDef
   LowPts <- LowDef
-  HsEdits = FALSE
-  WSizes <- WDuplex
-  RSizes <- RDuplex
-  MaxFrames = 2
-  MaxReads = 2
-  MaxEdits = 1
-  EditOps <- OpsAll
+  HsEdits = TRUE
+  WSizes <- NoSizes
+  RSizes <- NoSizes
+  MaxFrames = 0
+  MaxReads = 0
+  MaxEdits = 2
+  EditOps <- OpsHs
   Weak_ChallengeNotBound = FALSE
-  Weak_ChallengeDHOnly = FALSE
-  Weak_AcceptLowOrder = FALSE
+  Weak_ChallengeDHOnly = TRUE
+  Weak_AcceptLowOrder = TRUE
   Weak_NonceNotIncremented = FALSE
   Weak_RecvNonceNotIncremented = FALSE
   Weak_SameKeyBothDirections = FALSE
@@ -21,6 +21,6 @@ CONSTANTS
   Weak_VerifyWrongKey = FALSE
 INIT Init
 NEXT Next
-INVARIANTS AuthenticatedExceptSelf NonceFresh PrefixExact TamperFails DeliveredExact LowOrderRefused
+INVARIANTS AuthenticatedExceptSelf
 VIEW View
 CHECK_DEADLOCK FALSE
